@@ -41,8 +41,10 @@ type Conn struct {
 	tdsChannelsLock     *sync.RWMutex
 	errCh               chan error
 
-	// packetSize is the negotiated packet size
-	packetSize int
+	// packetSize is the negotiated packet size. The reader goroutine
+	// updates it when the server announces a new size while other
+	// goroutines send, so it is only accessed atomically.
+	packetSize int64
 }
 
 // Dial returns a prepared and dialed Conn.
@@ -178,7 +180,7 @@ func (tds *Conn) Close() error {
 func (tds *Conn) PacketSize() int {
 	// Must be pointer-receive as it is passed to Channels to acquire
 	// the negotiated packet size.
-	return tds.packetSize
+	return int(atomic.LoadInt64(&tds.packetSize))
 }
 
 // PacketBodySize returns the negotiated packet size minus the packet
@@ -186,7 +188,7 @@ func (tds *Conn) PacketSize() int {
 func (tds *Conn) PacketBodySize() int {
 	// Must be pointer-receive as it is passed to Channels to acquire
 	// the negotiated packet size.
-	return tds.packetSize - PacketHeaderSize
+	return int(atomic.LoadInt64(&tds.packetSize)) - PacketHeaderSize
 }
 
 func (tds *Conn) getValidChannelId() (int, error) {
